@@ -28,4 +28,5 @@ int impls_live(void);
 #ifdef __cplusplus
 }
 #endif
+int cobj_is_handle_word(uint64_t w);   /* 1: context pointer of a live counting object, 2: their invoke function */
 #endif
